@@ -13,3 +13,8 @@ for o in range(8):
         add("C03.%s.o%d"%(name,o),"VH_c03_"+name,TBL,c3,q,t,merge=C3M+["table.c03order$1","(*table.Path).Compare"],expect_reach=["end"],pins={"opts":o},bounds=C3B)
 add("C11.mp_withdraw_size","VH_c11_mp_withdraw_size",TBL,tc+["table/c11.go"],{"maxlen":4200},{"maxlen":66000},expect_reach=["end"],bounds="three MP (opaque family) withdrawals whose NLRI byte lengths are symbolic 2..maxlen each, extended-message symbolic")
 add("C11.mp_nexthops","VH_c11_mp_nexthops",TBL,tc+["table/c11.go"],expect_reach=["end"],bounds="two IPv6 routes with identical attributes, each with one of 2 global and {none, 2} link-local next hops (36 combinations)")
+c14=tc+["table/c14.go"]
+add("C14.roundtrip","VH_c14_roundtrip",TBL,c14,{"segs":2},{"segs":3},expect_reach=["end"],bounds="AS_PATH = optional leading confed segment (1-2 two-octet members) + segs SEQUENCE/SET segments of 1..3 symbolic 32-bit members")
+add("C14.pairs","VH_c14_pairs",TBL,c14,{"segs":2},{"segs":3},expect_reach=["end"],bounds="AS_PATH of 1..segs segments (any of the 4 types, 1..3 symbolic 16-bit members) x AS4_PATH of 1..segs segments (any type, 1..3 symbolic members)")
+add("C14.aggregator","VH_c14_aggregator",TBL,c14,expect_reach=["end"],bounds="every aggregator AS (32 bit) and address 10.0.0.x")
+add("C14.boundary255","VH_c14_boundary255",TBL,c14,{"unwind":400},{"unwind":400},expect_reach=["end"],bounds="AS_PATH SEQ(n1) SEQ(n2) + AS4_PATH SEQ(n2), n1 in 99..101, n2 in 154..156 (totals 253..257), end members symbolic")
